@@ -184,9 +184,18 @@ class Ctx:
         self.internal_errors: list[str] = []
         kf = json.loads((VERIF / "known_findings.json").read_text()) if (VERIF / "known_findings.json").exists() else {"findings": []}
         self.known = [f for f in kf.get("findings", []) if f.get("property") == pid]
-        self.casedir = CASES / pid
-        if self.casedir.exists():
-            shutil.rmtree(self.casedir, ignore_errors=True)
+        # one directory per run, so that concurrent runs of the same property do not clobber each other's case files
+        base = CASES / pid
+        base.mkdir(parents=True, exist_ok=True)
+        for old in base.iterdir():
+            try:
+                if old.is_dir() and time.time() - old.stat().st_mtime > 3 * 3600:
+                    shutil.rmtree(old, ignore_errors=True)
+                elif old.is_file():
+                    old.unlink()
+            except OSError:
+                pass
+        self.casedir = base / f"run-{os.getpid()}-{int(self.t0)}"
         self.casedir.mkdir(parents=True, exist_ok=True)
 
     # ---------------- budgets
@@ -446,6 +455,8 @@ class Ctx:
         evdir = Path(os.environ.get("VERIF_EVIDENCE_DIR", str(VERIF / "evidence")))  # redirected for runs against seeded trees
         evdir.mkdir(parents=True, exist_ok=True)
         (evdir / f"{self.pid}.json").write_text(json.dumps(ev, indent=1, default=str) + "\n")
+        if rc == 0:
+            shutil.rmtree(self.casedir, ignore_errors=True)  # keep the generated case files only when something failed
         status = "PASS" if rc == 0 else ("FAIL" if rc == 1 else "ERROR")
         print(f"{status} {self.pid} tier={self.tier} seed={self.seed} obligations={self.obligations} discharged={self.discharged} "
               f"evaluations={self.evaluations} nontrivial={len(self.nontrivial)} wall={wall:.1f}s")
